@@ -1565,6 +1565,10 @@ namespace cds { namespace intrusive {
                         }
                         else if ( nCmp == 0 ) {
                             // found
+                            if ( pCur->next( 0 ).load( memory_model::memory_order_acquire ).bits()) {
+                                // the node is logically deleted but is not unlinked yet - let the slow path decide
+                                return find_fastpath_abort;
+                            }
                             f( *node_traits::to_value_ptr( pCur.ptr()), val );
                             return find_fastpath_found;
                         }
